@@ -14,6 +14,8 @@ type propSpec struct {
 	Trusted  []string // assumption ids this property leans on
 	Rule     string
 	NoBattery bool // no executable oracle to replay against
+	BatteryIsCheck bool // the bounded run is (part of) the decision itself (exploration level)
+	DistinctKey string // battery stat that counts distinct non-trivial cases
 }
 
 var evalChain = []string{
@@ -30,6 +32,11 @@ var evalChain = []string{
 }
 
 var propTable = map[string]*propSpec{}
+
+// the semantic actions of the grammar (filled in init from the loaded program's naming scheme)
+var actionFuncs = []string{"grammar.current.onInput2", "grammar.current.onInput17", "grammar.current.onOrExpression11", "grammar.current.onOrExpression14", "grammar.current.onAndExpression11", "grammar.current.onNotExpression8", "grammar.current.onParenthesizedExpression2", "grammar.current.onParenthesizedExpression12", "grammar.current.onSelectorOrIndex2", "grammar.current.onSelectorOrIndex7", "grammar.current.onIndexExpression2", "grammar.current.onOrExpression2", "grammar.current.onAndExpression2", "grammar.current.onNotExpression2", "grammar.current.onCollectionExpression1", "grammar.current.onCollectionIdentifiers2", "grammar.current.onCollectionIdentifiers13", "grammar.current.onCollectionIdentifiers23", "grammar.current.onCollectionIdentifiers33", "grammar.current.onCollectionOpAny1", "grammar.current.onCollectionOpAll1", "grammar.current.onParenthesizedExpression24", "grammar.current.onIndexExpression18", "grammar.current.onIndexExpression28", "grammar.current.onNumberLiteral15", "grammar.current.onStringLiteral25", "grammar.current.onMatchValueOpSelector20", "grammar.current.onMatchSelectorOpValue1", "grammar.current.onMatchSelectorOp1", "grammar.current.onMatchValueOpSelector2", "grammar.current.onMatchEqual1", "grammar.current.onMatchNotEqual1", "grammar.current.onMatchIsEmpty1", "grammar.current.onMatchIsNotEmpty1", "grammar.current.onMatchIn1", "grammar.current.onMatchNotIn1", "grammar.current.onMatchContains1", "grammar.current.onMatchNotContains1", "grammar.current.onMatchMatches1", "grammar.current.onMatchNotMatches1", "grammar.current.onIdentifier1", "grammar.current.onNumberLiteral2", "grammar.current.onJsonPointerSegment1", "grammar.current.onSelectorOrIndex10", "grammar.current.onStringLiteral2", "grammar.current.onValue5", "grammar.current.onValue8", "grammar.current.onValue2", "grammar.current.onSelector2", "grammar.current.onSelector9"}
+var selectorActionFuncs = []string{"grammar.current.onSelector2", "grammar.current.onSelector9", "grammar.current.onJsonPointerSegment1", "grammar.current.onIdentifier1",
+	"grammar.current.onSelectorOrIndex2", "grammar.current.onSelectorOrIndex7", "grammar.current.onSelectorOrIndex10", "grammar.current.onIndexExpression2"}
 
 var baseTrust = []string{"A-GEN", "A-SSA", "A-REFLECT", "A-STRCONV", "A-FMT", "A-ERRORS", "A-OPTS", "A-FN", "A-SEQ", "A-STR", "A-GLOBALS"}
 
@@ -72,6 +79,14 @@ func init() {
 		"grammar.CollectionExpression.ExpressionDump", "grammar.Selector.String", "grammar.UnaryOperator.String", "grammar.BinaryOperator.String", "grammar.MatchOperator.String",
 		"grammar.CollectionNameBinding.String"}, Extras: []string{"frame:write:grammar.UnaryExpression.ExpressionDump,grammar.BinaryExpression.ExpressionDump,grammar.MatchExpression.ExpressionDump,grammar.CollectionExpression.ExpressionDump"},
 		Trusted: trust("A-FMT", "A-STRINGS", "A-ARITH-2", "A-STACK", "A-ENGINE")})
+	add(&propSpec{ID: "C15", Level: "exploration", BatteryIsCheck: true, DistinctKey: "accepted_distinct", Funcs: actionFuncs,
+		Rule:    "every sequence of <= 2 tokens over a 46-token alphabet (keywords, keywords as identifier prefixes, operators, punctuation, numbers incl. malformed, quoted/backtick/pointer/unterminated/bad-escape strings, an invalid UTF-8 byte) and <= 3 tokens over a 20-token core (thorough: <= 3 and <= 4), each with every assignment of {\"\", \" \"} to the gaps, plus ~110 complete statements; grammar.Parse is compared with an independent hand-written PEG recognizer/AST builder (accept/reject and deep equality of the tree). distinct_nontrivial = distinct inputs accepted by both",
+		Trusted: []string{"A-GEN", "A-ENGINE", "the reference parser /verif/replay/zz_bxv_refparse_test.go is the oracle"}})
+	add(&propSpec{ID: "C16", Level: "exploration", BatteryIsCheck: true, DistinctKey: "distinct_texts", Funcs: actionFuncs,
+		Rule:    "trees of depth <= 2 over 3 selectors x 8 operators x 4 literals x not/and/or x any/all with 4 binding modes (thinned to ~1500 in the quick tier), each rendered under 4 layouts (thorough: 76) choosing whitespace, redundant parentheses, quote style, selector spelling and in/contains; parsed back with grammar.Parse and compared with the tree (modulo Selector.Type); plus X == <quoted s> on X = s and X = s+\"x\" for 226 strings in both quote styles. distinct_nontrivial = distinct rendered texts",
+		Trusted: []string{"A-GEN", "A-ENGINE"}})
+	add(&propSpec{ID: "C07", Level: "proof", Funcs: append([]string{"bexpr.getValue", "bexpr.evaluateMatchExpression", "bexpr.evaluateCollectionExpression", "grammar.Selector.String"}, selectorActionFuncs...),
+		Extras: []string{"read:selector-type"}, Trusted: trust("A-PS", "A-ENGINE")})
 	add(&propSpec{ID: "C20", Level: "translation_validation", Extras: []string{"table:peg"}, NoBattery: true,
 		Trusted: []string{"A-GEN"}})
 	add(&propSpec{ID: "C08", Level: "proof", Funcs: []string{"bexpr.getValue", "bexpr.evaluateNotPresent", "bexpr.doMatchIsEmpty", "bexpr.doMatchEqual", "bexpr.doMatchIn", "bexpr.doMatchMatches",
